@@ -1,6 +1,7 @@
 mod bddgen;
 mod cnfgen;
 mod cnfstream;
+mod compstream;
 mod optstream;
 mod ordstream;
 mod tdstream;
@@ -64,6 +65,7 @@ fn main() {
             "ord" => ordstream::ord_lines(&mut rng, idx, maxvars),
             "cnf" => cnfstream::cnf_lines(&mut rng, idx, maxvars, maxops),
             "opt" => optstream::opt_lines(&mut rng, maxvars, maxops),
+            "comp" => vec![compstream::comp_line(&mut rng, maxvars)],
             "ring" => ringstream::ring_lines(&mut rng, idx),
             "tbl" => vec![tblstream::tbl_line(&mut rng, maxops)],
             "lru" => vec![tblstream::lru_line(&mut rng, maxops)],
